@@ -113,7 +113,7 @@ func (l *Loader) loadWithContent(path, content string, visited map[string]bool) 
 	var errors []LoadError
 	limits := l.getLimits()
 
-	if len(visited) >= limits.MaxIncludeDepth {
+	if includeDepth(visited) >= limits.MaxIncludeDepth {
 		return nil, []LoadError{{
 			Kind:    ErrorCycleDetected,
 			Path:    path,
@@ -174,7 +174,22 @@ func (l *Loader) loadWithContent(path, content string, visited map[string]bool) 
 		errors = append(errors, subErrors...)
 	}
 
+	// loaded; no longer one of the files currently being included
+	visited[path] = false
+
 	return result, errors
+}
+
+// includeDepth is the number of files currently being included (the ancestors
+// of the file about to be loaded); files that were loaded completely do not count.
+func includeDepth(visited map[string]bool) int {
+	depth := 0
+	for _, including := range visited {
+		if including {
+			depth++
+		}
+	}
+	return depth
 }
 
 func (l *Loader) loadSingleInclude(
@@ -191,6 +206,21 @@ func (l *Loader) loadSingleInclude(
 			Kind:    ErrorCycleDetected,
 			Path:    includePath,
 			Message: fmt.Sprintf("cycle detected: %s includes %s", basePath, includePath),
+			Range:   incRange,
+		})
+		return errors
+	}
+
+	// reached before along another path: each file is loaded once
+	if _, loaded := visited[includePath]; loaded {
+		return errors
+	}
+
+	if includeDepth(visited) >= limits.MaxIncludeDepth {
+		errors = append(errors, LoadError{
+			Kind:    ErrorCycleDetected,
+			Path:    includePath,
+			Message: fmt.Sprintf("include depth limit exceeded (%d)", limits.MaxIncludeDepth),
 			Range:   incRange,
 		})
 		return errors
